@@ -68,6 +68,9 @@ def gen_cases(rng, tier):
             key = ['fmt', '{n}']
         cases.append({'kind': 'sort', 'rows': rows_enc(gen_rows(rng, nrows, cols)), 'key': key, 'reverse': rev,
                       'batch_size': bs, 'names': ['i'] + list(cols)})
+        if k == 4 or all(isinstance(x, int) and not isinstance(x, bool) for x in cols.get('n', ['x'])):
+            # the declared type of the numeric key field: numbers compare as numbers whatever the schema calls them
+            cases[-1]['ntype'] = rng.pick(['any', 'integer', 'year', 'number', 'year'])
         if k in (0, 4) and rng.chance(0.5):
             cases[-1]['lead'] = rows_enc([dict([('i', j)] + [(c_, rng.pick(['x', 'b', 'x1'])) for c_ in cols]) for j in range(rng.randint(1, 3))])
     # above the ordered store's 10240-entry cache (the result must not depend on fitting in it), both directions
@@ -115,7 +118,7 @@ def step_of(case):
 
 def run_impl(case):
     rows = rows_dec(case['rows'])
-    res = mk_resource('t', case['names'], rows, types=dict((n, 'any') for n in case['names']))
+    res = mk_resource('t', case['names'], rows, types=dict((n, case.get('ntype', 'any') if n in ('n', 'm') else 'any') for n in case['names']))
     rs = [res]
     if case.get('lead'):
         # another resource sorted by the same step before this one, holding text in the key fields
